@@ -244,6 +244,10 @@ var mutArg = map[string][]int{
 	"(encoding/binary.littleEndian).PutUint64": {1},
 	"(encoding/binary.littleEndian).PutUint16": {1},
 	"io.ReadFull":         {1},
+	"io.WriteString":      {0},
+	"fmt.Fprintf":         {0},
+	"fmt.Fprint":          {0},
+	"fmt.Fprintln":        {0},
 	"crypto/rand.Read":    {0},
 	"encoding/hex.Encode": {0},
 	"encoding/hex.Decode": {0},
@@ -905,6 +909,16 @@ func canonCall(t *Term) *Term {
 		// SetUint64(c) and SetInt64(c) set the same value for a non-negative constant c
 		if c, ok := isConstInt(arg(1)); ok && c.Sign() >= 0 && c.IsInt64() {
 			return &Term{Op: "call", Name: "(*math/big.Int).SetInt64", V: t.V, Args: t.Args}
+		}
+	case "math/big.NewInt":
+		// big.NewInt(0) is the zero value, like new(big.Int)
+		if c, ok := isConstInt(arg(0)); ok && c.Sign() == 0 {
+			return &Term{Op: "alloc", Name: "math/big.Int", V: t.V}
+		}
+	case "fmt.Fprintf":
+		// fmt.Fprintf(&sb, f, args…) on a strings.Builder appends fmt.Sprintf(f, args…)
+		if w := arg(0); w != nil && w.Op == "self" && len(t.Args) >= 2 {
+			return &Term{Op: "call", Name: "(*strings.Builder).WriteString", V: t.V, Args: []*Term{w, {Op: "call", Name: "fmt.Sprintf", Args: t.Args[1:]}}}
 		}
 	case "strconv.FormatInt":
 		if ten, ok := isConstInt(arg(1)); ok && ten.Cmp(big.NewInt(10)) == 0 {
